@@ -123,11 +123,15 @@ def coq_list(names):
     return "[" + "; ".join(names) + "]"
 
 
-def generic_run(op, spec, lens):
-    """Run the real function on fresh symbols; returns dict with impl output, Coq lemma, self-check data."""
+def generic_run(op, spec, lens, masks=None):
+    """Run the real function on fresh symbols; returns dict with impl output, Coq lemma, self-check data.
+    `masks` (one bit mask per operand): slot j of operand i holds a symbol iff bit j is set, a literal 0 otherwise
+    (structural zeros: planar / axial operands make sub-expressions vanish that generic symbols never do)."""
     _ar, Vector, _C = impl()
     nvec, has_k, call, model, hyp, kind = spec
     syms = symbols_for(lens)
+    if masks is not None:
+        syms = [[s if (m >> j) & 1 else S.Zero for j, s in enumerate(vs)] for vs, m in zip(syms, masks)]
     k = Symbol("k") if has_k else None
     out = call([Vector(s) for s in syms], k)
     comps = list(out.components) if kind != "scalar" else [sympy.sympify(out)]
@@ -146,8 +150,8 @@ def generic_run(op, spec, lens):
     h = hyp(mlists, lens) if hyp else None
     binder = f"forall {rc.binder()}, " if rc.vars else ""
     stmt = f"{binder}{h + ' -> ' if h else ''}{lhs} = {rhs}"
-    name = f"corr_{op}_" + "_".join(map(str, lens))
-    return {"op": op, "lens": tuple(lens), "syms": syms, "k": k, "comps": comps, "kind": kind, "name": name,
+    name = f"corr_{op}_" + "_".join(map(str, lens)) + ("" if masks is None else "_z" + "_".join(map(str, masks)))
+    return {"masks": masks, "op": op, "lens": tuple(lens), "syms": syms, "k": k, "comps": comps, "kind": kind, "name": name,
         "lemma": coqrun.Lemma(name, stmt, "cv_corr.", f"arithmetics.py {op} on lengths {tuple(lens)}"), "stmt": stmt}
 
 
@@ -288,7 +292,7 @@ def spec_identities():
     return I
 
 
-def search_failing_input(ctx, op, lens, trials=40):
+def search_failing_input(ctx, op, lens, trials=40, masks=None):
     """Evaluate the property's identities that involve `op` on the implementation at seeded rational vectors whose
     first len(lens) operands have the lengths of the broken item.  Returns a replay dict or None."""
     _ar, V, _C = impl()
@@ -300,6 +304,9 @@ def search_failing_input(ctx, op, lens, trials=40):
             ls = [(lens[i] if (lens is not None and i < len(lens) and t < trials // 2) else rng.randrange(0, 4))
                 for i in range(nvec)]
             vals = [rand_vec(rng, n) for n in ls]
+            if masks is not None and t < trials // 2:       # keep the structural zeros of the broken item, other slots non-zero
+                vals = [[(x if x != 0 else S.One) if (masks[i] >> j) & 1 else S.Zero for j, x in enumerate(v)] if i < len(masks) else v
+                    for i, v in enumerate(vals)]
             ks = [sympy.sympify(rng.choice([2, -1, Rational(1, 3), -5, 0])) for _ in range(nk)]
             ok, err = eval_identity(fn, V, vals, ks)
             if not ok:
@@ -335,6 +342,18 @@ def generic_tie(ctx):
                 items.append(generic_run(op, spec, lens))
             except Exception as e:  # pylint: disable=broad-except
                 broken.append((op, lens, f"{type(e).__name__}: {e}"[:300]))
+    # structural zeros: every pattern of populated coordinates (8 x 8 for the cross product; the coordinate planes and axes
+    # for the other binary operations in quick, all patterns in thorough)
+    planes = [0b011, 0b101, 0b110, 0b001, 0b010, 0b100]
+    for op in ("cross", "dot", "add", "sub", "project", "reject"):
+        pats = list(range(8)) if (op == "cross" or not ctx.quick) else planes
+        for ma, mb in itertools.product(pats, repeat=2):
+            if (ma == 7 and mb == 7) or (op in ("project", "reject") and mb == 0):
+                continue
+            try:
+                items.append(generic_run(op, ops[op], (3, 3), masks=(ma, mb)))
+            except Exception as e:  # pylint: disable=broad-except
+                broken.append((op, (3, 3), f"zero pattern {ma:03b}/{mb:03b}: {type(e).__name__}: {e}"[:300]))
     for op, lens, msg in broken:
         found = search_failing_input(ctx, op, lens)
         ctx.violation(f"C10:generic-run:{op}:{'x'.join(map(str, lens))}",
@@ -347,8 +366,10 @@ def generic_tie(ctx):
     for it in items:
         if res.get(it["name"]) == "ok":
             continue
-        found = search_failing_input(ctx, it["op"], it["lens"])
-        what = (f"implementation output of {it['op']} on lengths {it['lens']} is not the model's: "
+        found = search_failing_input(ctx, it["op"], it["lens"], masks=it.get("masks"))
+        what = (f"implementation output of {it['op']} on lengths {it['lens']}"
+            + (f" with zero pattern {'/'.join(format(m, '03b')[::-1] for m in it['masks'])} (xyz, 1 = symbol)" if it.get("masks") else "")
+            + " is not the model's: "
             f"{[str(c) for c in it['comps']]}")
         ctx.violation(f"C10:corr:{it['name']}", what,
             {"kind": "broken-proof", "item": it["name"], "theorem_or_tie": f"generated lemma {it['name']}: {it['stmt']}",
@@ -374,21 +395,28 @@ def concrete_tie(ctx, items):
     skipped = 0
     for it in items:
         spec = ops[it["op"]]
-        for t in range(5):
+        for t in range(8):
+            if t >= 5 and (it.get("masks") is not None or max(it["lens"], default=0) <= t - 5):
+                continue
             vals = []
             for i, n in enumerate(it["lens"]):
                 if t == 0:
                     vals.append([S.Zero] * n)                 # all zero
                 elif t == 1:
                     vals.append([sympy.sympify(-(j + 1 + i)) for j in range(n)])   # negatives
+                elif t >= 5:                                  # planar: coordinate t-5 vanishes in every operand, the others do not
+                    vals.append([S.Zero if j == t - 5 else sympy.sympify(rng.choice([1, -1, 2, -3, 5, Rational(1, 2), Rational(7, 4)]))
+                        for j in range(n)])
                 else:
                     vals.append(rand_vec(rng, n))
+            if it.get("masks") is not None:                   # structural zeros stay zeros
+                vals = [[v if (m >> j) & 1 else S.Zero for j, v in enumerate(vv)] for vv, m in zip(vals, it["masks"])]
             kval = sympy.sympify(rng.choice([0, -1, 3, Rational(-2, 5)])) if it["k"] is not None else None
             needs_nz = {"unit": 0, "project": 1, "reject": 1, "project_same": 0, "reject_same": 0}.get(it["op"])
             if needs_nz is not None and it["lens"][needs_nz] and all(x == 0 for x in vals[needs_nz]):
                 skipped += 1
                 continue
-            sub = {s: v for ss, vv in zip(it["syms"], vals) for s, v in zip(ss, vv)}
+            sub = {s: v for ss, vv in zip(it["syms"], vals) for s, v in zip(ss, vv) if s != 0}
             if it["k"] is not None:
                 sub[it["k"]] = kval
             # python ints as well as SymPy numbers are legitimate components
@@ -423,7 +451,7 @@ def serialiser_selfcheck(ctx, items):
     rng = ctx.rng
     lits, meta = [], []
     for it in items:
-        syms = [s for ss in it["syms"] for s in ss] + ([it["k"]] if it["k"] is not None else [])
+        syms = [s for ss in it["syms"] for s in ss if s != 0] + ([it["k"]] if it["k"] is not None else [])
         for _ in range(ctx.pick(2, 3)):
             env = {s: Fraction(rng.randint(-9, 9), rng.randint(1, 5)) for s in syms}
             for comp in it["comps"]:
@@ -735,6 +763,9 @@ def history(ctx):
 
     for q in range(nseq):
         pool = [Vector(rand_vec(rng, rng.randrange(0, 4), nonzero=(j == 0))) for j in range(4)]
+        if q % 2:                                             # planar / axial operands: one shared coordinate vanishes
+            z = rng.randrange(3)
+            pool = [Vector([S.Zero if j == z else (x if x != 0 else S.One) for j, x in enumerate(rand_vec(rng, 3))]) for _ in range(4)]
         names = [f"v{j}" for j in range(4)]
         trace = []
         for _ in range(nsteps):
